@@ -113,7 +113,10 @@ BATTERY_SCRIPTS = [
 ]
 ENTRY = ['compile_script', 'from_src', 'assemble', 'parse_comptime']
 ALIAS_CONTEXTS = ['%s', 'op_push1 x01 %s', 'op_push2 x0102 %s', 'true if { %s }',
-                  'push x01 %s pop0', 'op_push1 d1 x07 %s']
+                  'push x01 %s pop0', 'op_push1 d1 x07 %s', 'def 0 { %s }',
+                  'try { %s } except { true }', 'try { true } except { %s }',
+                  'true loop { %s false }', 'false if { true } else { %s }',
+                  'push ~ { %s }']
 RUN_SCRIPTS = ['msg', 'msg2', 'ct', 'inv0', 'inv1', 'inv2', 'xfer', 'sign',
                'fail', 'cachekey']
 NESTS = ['top', 'if', 'try', 'loop', 'call', 'eval', 'if_call', 'if_try_call']
@@ -152,7 +155,7 @@ def _rand_op(rng: Rng):
                 'alias': rng.choice(['yea', 'Yea', 'YEA', 'twin', 'TWIN', 'tWiN']),
                 'target': rng.choice(['op_true', 'OP_TRUE', 'OP_FALSE', 'op_dup', 'OP_DUP'])}
     if k in ('run', 'frun'):
-        op = {'op': 'run', 'how': rng.choice(['script', 'script', 'auth']),
+        op = {'op': 'run', 'how': rng.choice(['script', 'script', 'auth', 'auth_late']),
               'script': rng.choice(RUN_SCRIPTS)}
         if rng.chance(1, 3):
             op['ov_plugins'] = {rng.choice(['se', 'ct', 'cu']):
@@ -670,8 +673,11 @@ def do_run(w, op, run):
     before = _snapshot(cache, ov_c, ov_p)
     _pin()
     w.log = []
-    if op['how'] == 'auth':
+    if op['how'] in ('auth', 'auth_late'):
         scripts = [code, T.compile_script('true')]
+        if op['how'] == 'auth_late':
+            # the script that uses plugins / contracts is not the first one
+            scripts = [T.compile_script('true pop0'), code, T.compile_script('true')]
         try:
             res = ['ok', F.run_auth_scripts(scripts, cache, **kwargs)]
         except BaseException as e:      # noqa
@@ -871,7 +877,7 @@ def shrink(plan):
                 c = copy.deepcopy(plan)
                 del c['steps'][i][key]
                 yield c
-        if s.get('how') == 'auth':
+        if s.get('how') in ('auth', 'auth_late'):
             c = copy.deepcopy(plan)
             c['steps'][i]['how'] = 'script'
             yield c
